@@ -176,6 +176,8 @@ func (gen *generator) irDICompileUnit(new metadata.SpecializedNode, old *ast.DIC
 	} else if !ok {
 		panic(fmt.Errorf("invalid IR specialized metadata node for AST specialized metadata node; expected *metadata.DICompileUnit, got %T", new))
 	}
+	// splitDebugInlining is true unless the field says otherwise (as in LLVM).
+	md.SplitDebugInlining = true
 	for _, oldField := range old.Fields() {
 		switch oldField := oldField.(type) {
 		case *ast.LanguageField:
@@ -638,6 +640,8 @@ func (gen *generator) irDIGlobalVariable(new metadata.SpecializedNode, old *ast.
 	} else if !ok {
 		panic(fmt.Errorf("invalid IR specialized metadata node for AST specialized metadata node; expected *metadata.DIGlobalVariable, got %T", new))
 	}
+	// isDefinition is true unless the field says otherwise (as in LLVM).
+	md.IsDefinition = true
 	for _, oldField := range old.Fields() {
 		switch oldField := oldField.(type) {
 		case *ast.NameField:
@@ -1341,6 +1345,14 @@ func (gen *generator) irDISubprogram(new metadata.SpecializedNode, old *ast.DISu
 		md = &metadata.DISubprogram{MetadataID: -1}
 	} else if !ok {
 		panic(fmt.Errorf("invalid IR specialized metadata node for AST specialized metadata node; expected *metadata.DISubprogram, got %T", new))
+	}
+	// isDefinition is true unless the isDefinition field says otherwise or
+	// spFlags is present (spFlags takes precedence, as in LLVM).
+	md.IsDefinition = true
+	for _, oldField := range old.Fields() {
+		if _, ok := oldField.(*ast.SPFlagsField); ok {
+			md.IsDefinition = false
+		}
 	}
 	for _, oldField := range old.Fields() {
 		switch oldField := oldField.(type) {
